@@ -6,11 +6,11 @@
 # with --cleanup when a batch is finished.
 # Exit 0 = detected (check exited 1 with a VIOLATION line), 1 = missed, 2 = trouble.
 set -u
-WT=/tmp/wt-seeded
+WT=${SEEDED_WT:-/tmp/wt-seeded}
 if [ "${1:-}" = "--cleanup" ]; then git -C /repo worktree remove --force "$WT" >/dev/null 2>&1; rm -rf "$WT"; git -C /repo worktree prune; exit 0; fi
 name="$1"; id="$2"; shift 2
 export GOFLAGS=-mod=mod GOPROXY=off GOSUMDB=off GOTOOLCHAIN=local
-exec 9>/tmp/wt-seeded.lock; flock 9
+exec 9>"$WT.lock"; flock 9
 head=$(git -C /repo rev-parse HEAD)
 if [ ! -d "$WT/.git" ] && [ ! -f "$WT/.git" ]; then
   git -C /repo worktree add --detach "$WT" "$head" >/dev/null 2>&1 || { echo "cannot create worktree"; exit 2; }
